@@ -1,7 +1,7 @@
 (* Props/C17.v — The reported parameter list covers every variable a program can read. *)
 From Coq Require Import ZArith List Bool.
 From Rscel Require Import Base.Prims Model.Value Model.Funcs Model.Interp Model.Ast Model.Parser Model.Compile Spec.FreeIdents.
-From Rscel Require Import Proofs.Params Proofs.Relevance Proofs.Reads.
+From Rscel Require Import Proofs.Params Proofs.Relevance Proofs.Reads Proofs.ReadsCtx.
 Import ListNotations.
 Import Coq.Strings.String.StringSyntax.
 Open Scope Z_scope.
@@ -72,3 +72,21 @@ Example C17_relevance_somewhere :
   | _ => []
   end = [#"size"; #"x"; #"y"; #"z"].
 Proof. vm_compute. reflexivity. Qed.
+
+(** A context holding several programs that refer to one another: [compiled_context progs names] says that
+    every stored program is what the compiler made of some source and that [names] contains what each of
+    them reports.  Two sets of bindings that agree on all those names give the same outcome for every
+    stored program, through every chain of references (the referenced program runs under the same bindings). *)
+Theorem C17_context_params_decide_the_result : forall progs names, compiled_context progs names ->
+  forall ps ps' ufs now, pure_binds ps -> pure_binds ps' -> pure_ufuns ufs ->
+  (forall n, In n names \/ is_type_name n = true -> map_get ps n = map_get ps' n) ->
+  forall fuelr name,
+    exec fuelr (ctx_env ps progs ufs now) name = exec fuelr (ctx_env ps' progs ufs now) name.
+Proof. exact context_params_decide_the_result. Qed.
+Print Assumptions C17_context_params_decide_the_result.
+
+(** the premise is met by an ordinary context: `a` is `b + x`, `b` is `y * 2` *)
+Example C17_compiled_context_somewhere :
+  exists ca cb, compiled_context [(#"a", ca); (#"b", cb)] [#"b"; #"x"; #"y"] /\
+    exec 100 (ctx_env [(#"x", VInt 1); (#"y", VInt 20)] [(#"a", ca); (#"b", cb)] [] 0) #"a" = (ROk (VInt 41), []).
+Proof. exact compiled_context_somewhere. Qed.
